@@ -2,7 +2,7 @@
 rules are written against: CFG (unwind edges dropped), dominators, post-dominators, natural
 loops, whole-crate call graph, def-chain expression reconstruction, exit classification and
 guard census.  Nothing here executes pyxis; everything is computed from the MIR facts."""
-import json, re, sys
+import json, os, re, sys
 from collections import defaultdict, deque
 
 TRY_BRANCH = 'std::ops::Try::branch'
@@ -100,6 +100,310 @@ def _places(node, role='other', out=None):
     return out
 
 
+KNOWN_FNS = None
+
+
+def _known_fns():
+    global KNOWN_FNS
+    if KNOWN_FNS is None:
+        try:
+            with open(os.path.join(os.path.dirname(os.path.abspath(__file__)), '..', 'spec', 'known_fns.json')) as fh:
+                KNOWN_FNS = set(json.load(fh)['fns'])
+        except Exception:
+            KNOWN_FNS = set()
+    return KNOWN_FNS
+
+
+def _retarget(t, f):
+    """apply f to every block index of terminator t"""
+    for key in ('target', 'otherwise'):
+        if isinstance(t.get(key), int):
+            t[key] = f(t[key])
+    if t.get('targets'):
+        t['targets'] = [[x[0], f(x[1])] for x in t['targets']]
+
+
+def _term_succ(t):
+    out = []
+    for key in ('target', 'otherwise'):
+        if isinstance(t.get(key), int):
+            out.append(t[key])
+    for x in t.get('targets') or []:
+        out.append(x[1])
+    return out
+
+
+def _fn_consts(node, out=None):
+    """every `fn` constant (function reference) in a MIR node"""
+    if out is None:
+        out = []
+    if isinstance(node, dict):
+        if 'fn' in node and isinstance(node['fn'], dict) and node.get('k') == 'Const':
+            out.append(node['fn'])
+        for key, v in node.items():
+            if key not in ('span', 'fn_span'):
+                _fn_consts(v, out)
+    elif isinstance(node, list):
+        for v in node:
+            _fn_consts(v, out)
+    return out
+
+
+def _rename_strings(node, old, new):
+    """replace the prefix `old` by `new` in every string of a JSON node (ids of closures that move with an inlined helper)"""
+    if isinstance(node, dict):
+        for k, v in node.items():
+            if isinstance(v, str):
+                if old in v:
+                    node[k] = v.replace(old, new)
+            else:
+                _rename_strings(v, old, new)
+    elif isinstance(node, list):
+        for i, v in enumerate(node):
+            if isinstance(v, str):
+                if old in v:
+                    node[i] = v.replace(old, new)
+            else:
+                _rename_strings(v, old, new)
+
+
+def inline_new_helpers(d):
+    """a private function that the pinned tree does not have (spec/known_fns.json) and that is called from exactly one place is a
+    helper extracted by a refactoring: its body is spliced back into the caller (locals and blocks renumbered, parameters
+    assigned from the arguments, `return` continuing after the call; with `helper(..)?` the helper's own Err / Ok returns are
+    connected directly to the caller's error return / continuation).  Works on the loaded facts in place; returns [(helper, caller, threaded)]."""
+    known = set(_known_fns())
+    if not known:
+        return []
+    done = []
+    skip = set()
+    for _round in range(8):
+        byid = {f['id']: f for f in d['fns']}
+        new_fns = [f for f in d['fns'] if f['kind'] in ('Fn', 'AssocFn') and not f.get('public') and not f.get('derived') and f['id'] not in known
+                   and f['id'] not in skip and not f['id'].startswith('parser::')]
+        if not new_fns:
+            break
+        newids = {f['id'] for f in new_fns}
+        sites = defaultdict(list)
+        refs = defaultdict(int)
+        for f in d['fns']:
+            for bi, b in enumerate(f['blocks']):
+                t = b['term']
+                if t['k'] == 'Call' and t.get('callee'):
+                    c = t['callee']
+                    tgt = c.get('rpath') if c.get('rlocal') else (c['path'] if c.get('local') else None)
+                    if tgt in newids:
+                        sites[tgt].append((f['id'], bi))
+                for c in _fn_consts(b['stmts']) + _fn_consts(b['term'].get('args', [])):
+                    for key in ('path', 'rpath'):
+                        if c.get(key) in newids:
+                            refs[c[key]] += 1
+        cand = None
+        for f in new_fns:
+            if len(sites.get(f['id'], [])) != 1 or refs.get(f['id'], 0):
+                continue
+            caller_id, cb = sites[f['id']][0]
+            base_caller = re.sub(r'(::\{closure#\d+\})+$', '', caller_id)
+            if base_caller == f['id'] or byid[caller_id].get('derived'):
+                continue
+            # helpers that call other new single-site helpers are inlined after those (leaves first)
+            if any(ci == f['id'] or ci.startswith(f['id'] + '::{closure#') for tg, ss in sites.items() if tg != f['id'] and len(ss) == 1 and not refs.get(tg, 0) for ci, _ in ss):
+                continue
+            if any(b['term']['k'] not in ('Call', 'SwitchInt', 'Goto', 'Drop', 'Assert', 'Return', 'Unreachable', 'UnwindResume') for b in f['blocks']):
+                continue
+            cand = (f, byid[caller_id], cb)
+            break
+        if cand is None:
+            break
+        H, C, cb = cand
+        call = C['blocks'][cb]['term']
+        D, T = call['dest'], call.get('target')
+        if T is None or len(call['args']) != H['arg_count']:
+            skip.add(H['id'])
+            continue
+        # closures of the helper become closures of the caller (ids renumbered after the caller's own)
+        ncl = 0
+        for g in d['fns']:
+            m = re.match(re.escape(C['id']) + r'::\{closure#(\d+)\}$', g['id'])
+            if m:
+                ncl = max(ncl, int(m.group(1)) + 1)
+        hcl = [g for g in d['fns'] if g['id'].startswith(H['id'] + '::{closure#')]
+        if hcl:
+            ks = sorted({int(re.match(re.escape(H['id']) + r'::\{closure#(\d+)\}', g['id']).group(1)) for g in hcl}, reverse=True)
+            for k in ks:
+                old_, new_ = H['id'] + '::{closure#%d}' % k, C['id'] + '::{closure#%d}' % (ncl + k)
+                _rename_strings(H['blocks'], old_, new_)
+                for g in hcl:
+                    _rename_strings(g, old_, new_)
+            for g in hcl:
+                if g.get('parent') == H['id']:
+                    g['parent'] = C['id']
+        lb, bb = len(C['locals']), len(C['blocks'])
+        # promoted constants of the helper move along
+        pb = len(C.get('promoted') or [])
+        hp = json.loads(json.dumps(H.get('promoted') or []))
+        for p_ in hp:
+            p_['i'] += pb
+        C['promoted'] = (C.get('promoted') or []) + hp
+        hblocks = json.loads(json.dumps(H['blocks']))
+        if hp:
+            for k in sorted({p_['i'] - pb for p_ in hp}, reverse=True):
+                _rename_strings(hblocks, H['id'] + '::promoted[%d]' % k, C['id'] + '::promoted[%d]' % (pb + k))
+        for l in H['locals']:
+            nl = dict(l)
+            nl['i'] = lb + l['i']
+            C['locals'].append(nl)
+        for dbg in H['debug']:
+            nd = json.loads(json.dumps(dbg))
+            nd['place']['local'] += lb
+            nd['arg'] = None
+            C['debug'].append(nd)
+        # the helper's return place is the place the caller receives the result in (the caller's own return place for a tail call)
+        direct = not D['proj']
+        R0 = D['local'] if direct else lb
+        for b in hblocks:
+            for pl, role in _places(b['stmts']) + _places(b['term']):
+                pl['local'] = R0 if (direct and pl['local'] == 0) else pl['local'] + lb
+            _retarget(b['term'], lambda x: x + bb)
+        sp = call['span']
+        # parameters := arguments
+        for i, a in enumerate(call['args']):
+            C['blocks'][cb]['stmts'].append({'k': 'Assign', 'place': {'local': lb + 1 + i, 'proj': [], 'ty': H['locals'][1 + i]['ty']}, 'rv': {'k': 'Use', 'op': a}, 'span': sp, 'inl': True})
+        C['blocks'][cb]['term'] = {'k': 'Goto', 'target': bb, 'span': sp}
+        rty = H['locals'][0]['ty']
+        # the `?` pattern at the call site:  T: Bv = branch(move D) -> T2;  T2: k = discriminant(Bv); switch [0: Tc, 1: Tb]
+        thread = None
+        try:
+            if not direct or D['local'] == 0:
+                raise KeyError('no threading')
+            tb_ = C['blocks'][T]
+            tt = tb_['term']
+            if tt['k'] == 'Call' and tt['callee']['path'].endswith('Try::branch') and tt['args'][0].get('place', {}).get('local') == D['local'] \
+                    and not any(pl['local'] == D['local'] for st in tb_['stmts'] for pl, _ in _places(st)):
+                Bv, T2 = tt['dest']['local'], tt['target']
+                t2 = C['blocks'][T2]
+                if t2['term']['k'] == 'SwitchInt' and len(t2['stmts']) == 1 and t2['stmts'][0]['rv']['k'] == 'Discriminant' and t2['stmts'][0]['rv']['place']['local'] == Bv:
+                    arms = dict((int(x[0]), x[1]) for x in t2['term']['targets'])
+                    Tc, Tb = arms.get(0), arms.get(1)
+                    if Tb is None:
+                        Tb = t2['term'].get('otherwise')
+                    if Tc is None:
+                        Tc = t2['term'].get('otherwise')
+                    c0 = C['blocks'][Tc]['stmts'][0] if C['blocks'][Tc]['stmts'] else None
+                    b_ = C['blocks'][Tb]
+                    okc = c0 is not None and c0['rv']['k'] == 'Use' and c0['rv']['op'].get('place', {}).get('local') == Bv and not c0['place']['proj']
+                    okb = b_['term']['k'] == 'Call' and b_['term']['callee']['path'].endswith('from_residual') and b_['term']['dest']['local'] == 0 and not b_['term']['dest']['proj']
+                    if okc and okb:
+                        thread = dict(x=c0['place'], Tc=Tc, Tr=b_['term']['target'])
+        except Exception:
+            thread = None
+        nblocks = hblocks
+        if thread:
+            # per definition of the helper's return place: clone what follows up to `return` and connect it
+            extra = []
+
+            def reach_from(start):
+                seen, st = set(), [start]
+                while st:
+                    x = st.pop()
+                    if x in seen:
+                        continue
+                    seen.add(x)
+                    st.extend(y - bb for y in _term_succ(nblocks[x]['term']))
+                return seen
+            defsites = []
+            for i, b in enumerate(nblocks):
+                for si, st in enumerate(b['stmts']):
+                    if st['k'] == 'Assign' and st['place']['local'] == R0 and not st['place']['proj']:
+                        defsites.append((i, si))
+                t = b['term']
+                if t['k'] == 'Call' and t['dest']['local'] == R0 and not t['dest']['proj']:
+                    defsites.append((i, 'term'))
+            allclean = bool(defsites)
+            plans = []
+            for (i, si) in defsites:
+                if si == 'term':
+                    t = nblocks[i]['term']
+                    kind = 'err-call' if t.get('callee') and t['callee']['path'].endswith('from_residual') and t.get('target') is not None else None
+                else:
+                    rv = nblocks[i]['stmts'][si]['rv']
+                    kind = None
+                    if rv['k'] == 'Aggregate' and rv.get('adt') == 'std::result::Result' and rv.get('variant') in ('Ok', 'Err') and len(rv['ops']) == 1:
+                        kind = 'ok' if rv['variant'] == 'Ok' else 'err'
+                if kind is None:
+                    allclean = False
+                    break
+                # what follows the definition must not define the return place again
+                if si == 'term':
+                    region = reach_from(nblocks[i]['term']['target'] - bb)
+                    rest = []
+                else:
+                    region = set()
+                    for y in _term_succ(nblocks[i]['term']):
+                        region |= reach_from(y - bb)
+                    rest = nblocks[i]['stmts'][si + 1:]
+                if any((j, sj) in defsites for j in region for sj in list(range(len(nblocks[j]['stmts']))) + ['term']) or \
+                        any(st['k'] == 'Assign' and st['place']['local'] == R0 for st in rest):
+                    allclean = False
+                    break
+                plans.append((i, si, kind, region))
+            if allclean:
+                base_new = bb + len(nblocks)
+                for (i, si, kind, region) in plans:
+                    order = sorted(region)
+                    remap = {j: base_new + len(extra) + n for n, j in enumerate(order)}
+                    clones = []
+                    for j in order:
+                        nb = json.loads(json.dumps(nblocks[j]))
+                        if nb['term']['k'] == 'Return':
+                            nb['term'] = {'k': 'Goto', 'target': thread['Tc'] if kind == 'ok' else thread['Tr'], 'span': nb['term']['span']}
+                        else:
+                            _retarget(nb['term'], lambda x: remap.get(x - bb, x))
+                        clones.append(nb)
+                    if si == 'term':
+                        t = nblocks[i]['term']
+                        t['dest'] = {'local': 0, 'proj': [], 'ty': C['locals'][0]['ty']}
+                        t['target'] = remap[t['target'] - bb]
+                    else:
+                        st = nblocks[i]['stmts'][si]
+                        op = st['rv']['ops'][0]
+                        if kind == 'ok':
+                            nblocks[i]['stmts'][si] = {'k': 'Assign', 'place': json.loads(json.dumps(thread['x'])), 'rv': {'k': 'Use', 'op': op}, 'span': st['span'], 'inl': True}
+                        else:
+                            nblocks[i]['stmts'][si] = {'k': 'Assign', 'place': {'local': 0, 'proj': [], 'ty': C['locals'][0]['ty']}, 'span': st['span'], 'inl': True,
+                                                       'rv': {'k': 'Aggregate', 'agg': 'Adt', 'adt': 'std::result::Result', 'variant': 'Err', 'is_enum': True, 'fields': ['0'], 'ops': [op]}}
+                        _retarget(nblocks[i]['term'], lambda x: remap.get(x - bb, x))
+                    extra.extend(clones)
+                nblocks = nblocks + extra
+                # the continuation no longer unpacks the ControlFlow value
+                C['blocks'][thread['Tc']]['stmts'] = C['blocks'][thread['Tc']]['stmts'][1:]
+            else:
+                thread = None
+        if not thread:
+            for b in nblocks:
+                if b['term']['k'] == 'Return':
+                    if not direct:
+                        b['stmts'].append({'k': 'Assign', 'place': json.loads(json.dumps(D)), 'rv': {'k': 'Use', 'op': {'k': 'Move', 'place': {'local': R0, 'proj': [], 'ty': rty}}},
+                                           'span': b['term']['span'], 'inl': True})
+                    b['term'] = {'k': 'Goto', 'target': T, 'span': b['term']['span']}
+        C['blocks'].extend(nblocks)
+        # blocks that nothing reaches any more (the unpacking of the helper's Result, the helper's shared return ladder) are emptied
+        seen_, st_ = set(), [0]
+        while st_:
+            x_ = st_.pop()
+            if x_ in seen_:
+                continue
+            seen_.add(x_)
+            st_.extend(_term_succ(C['blocks'][x_]['term']))
+        for i_, b_ in enumerate(C['blocks']):
+            if i_ not in seen_ and not b_.get('cleanup'):
+                b_['stmts'] = []
+                b_['term'] = {'k': 'Unreachable', 'span': b_['term']['span']}
+        d['fns'] = [g for g in d['fns'] if g['id'] != H['id']]
+        done.append((H['id'], C['id'], bool(thread)))
+    return done
+
+
 def sroa(d):
     """scalar replacement of struct locals that are filled field by field (`let mut flags = Flags::default(); flags.a = ..;
     .. Ok(flags)`): every field becomes a local of its own, the whole value is rebuilt as an aggregate where it is used.
@@ -107,9 +411,9 @@ def sroa(d):
     adts = {a['path']: a for a in d['adts'] if a.get('kind') == 'Struct' and len(a.get('variants', [])) == 1}
     done = []
     for f in d['fns']:
-        if f.get('derived'):
-            continue
-        cands = [l['i'] for l in f['locals'] if l['i'] > f['arg_count'] and l['ty'] in adts]
+        if f.get('derived') or f['id'].startswith('parser::'):
+            continue        # (the grammar extractor reads the parser functions in their own terms)
+        cands = [l['i'] for l in f['locals'] if l['i'] > f['arg_count'] and (l['ty'] in adts or (l['ty'].startswith('(') and l['ty'] != '()'))]
         if not cands:
             continue
         occ = defaultdict(list)
@@ -130,7 +434,14 @@ def sroa(d):
         for L in cands:
             os_ = occ.get(L, [])
             fstores = [o for o in os_ if o[3] == 'dest' and o[2]['proj'] and o[2]['proj'][0].get('k') == 'Field']
-            if not fstores:
+            wdefs = [o for o in os_ if o[3] == 'dest' and not o[2]['proj']]
+            aggdefs = [o for o in wdefs if o[1] != 'term' and f['blocks'][o[0]]['stmts'][o[1]]['rv']['k'] == 'Aggregate'
+                       and f['blocks'][o[0]]['stmts'][o[1]]['rv'].get('agg') in ('Adt', 'Tuple') and not f['blocks'][o[0]]['stmts'][o[1]]['rv'].get('is_enum')]
+            # filled field by field, or built whole at several places and taken apart by the reader (`let (a, b) = if c { (x, y) } else { (z, w) }`)
+            if not fstores and not (len(wdefs) >= 2 and len(aggdefs) == len(wdefs) and any(o[2]['proj'] for o in os_)):
+                continue
+            is_tuple = f['locals'][L]['ty'] not in adts
+            if is_tuple and (len(aggdefs) != len(wdefs) or not aggdefs):
                 continue
             ok = True
             for bi, si, pl, role in os_:
@@ -145,7 +456,13 @@ def sroa(d):
                         ok = False
             if not ok:
                 continue
-            adt = adts[f['locals'][L]['ty']]
+            if is_tuple:
+                ops0 = f['blocks'][aggdefs[0][0]]['stmts'][aggdefs[0][1]]['rv']['ops']
+                if any(len(f['blocks'][o[0]]['stmts'][o[1]]['rv']['ops']) != len(ops0) for o in aggdefs):
+                    continue
+                adt = {'path': f['locals'][L]['ty'], 'variants': [{'name': 'tuple', 'fields': [{'name': str(i_), 'ty': (op_.get('place') or op_).get('ty', '?')} for i_, op_ in enumerate(ops0)]}]}
+            else:
+                adt = adts[f['locals'][L]['ty']]
             fields = adt['variants'][0]['fields']
             base = len(f['locals'])
             name = next((x['name'] for x in f['debug'] if x['place']['local'] == L and not x['place']['proj']), '_%d' % L)
@@ -170,13 +487,24 @@ def sroa(d):
                     f['locals'].append({'i': tmp, 'ty': f['locals'][L]['ty'], 'span': sp, 'sroa': [L, None]})
                     pl['local'] = tmp
                     st = {'k': 'Assign', 'place': {'local': tmp, 'proj': [], 'ty': f['locals'][L]['ty']}, 'span': sp, 'sroa': True,
-                          'rv': {'k': 'Aggregate', 'agg': 'Adt', 'adt': adt['path'], 'variant': adt['variants'][0]['name'], 'is_enum': False,
-                                 'fields': [fd['name'] for fd in fields],
+                          'rv': {'k': 'Aggregate', 'agg': 'Tuple' if is_tuple else 'Adt', 'adt': adt['path'], 'variant': adt['variants'][0]['name'], 'is_enum': False,
+                                 'fields': [] if is_tuple else [fd['name'] for fd in fields],
                                  'ops': [{'k': 'Copy', 'place': {'local': newl[i], 'proj': [], 'ty': fd['ty']}} for i, fd in enumerate(fields)]}}
                     ins[(bi, si)].append(st)
             # 3. whole definitions: split into the fields right after
+            aggset = {(o[0], id(f['blocks'][o[0]]['stmts'][o[1]])) for o in aggdefs}
             for bi, si, pl, role in os_:
                 if not pl['proj'] and pl['local'] == L and role == 'dest':
+                    if si != 'term' and (bi, id(f['blocks'][bi]['stmts'][si])) in aggset:
+                        # built whole from its parts: the parts go straight into the field locals
+                        st0 = f['blocks'][bi]['stmts'][si]
+                        names_ = st0['rv'].get('fields') or [str(i_) for i_ in range(len(st0['rv']['ops']))]
+                        order_ = {fd['name']: i_ for i_, fd in enumerate(fields)}
+                        sts = [{'k': 'Assign', 'place': {'local': newl[order_[nm_]], 'proj': [], 'ty': fields[order_[nm_]]['ty']}, 'span': st0['span'], 'sroa': True,
+                                'rv': {'k': 'Use', 'op': op_}} for nm_, op_ in zip(names_, st0['rv']['ops']) if nm_ in order_]
+                        st0['sroa_dead'] = True
+                        ins[(bi, si + 1)] = sts + ins.get((bi, si + 1), [])
+                        continue
                     sts = [{'k': 'Assign', 'place': {'local': newl[i], 'proj': [], 'ty': fd['ty']}, 'span': sp, 'sroa': True,
                             'rv': {'k': 'Use', 'op': {'k': 'Copy', 'place': {'local': L, 'proj': [{'k': 'Field', 'i': i, 'name': fd['name'], 'adt': adt['path']}], 'ty': fd['ty']}}}}
                            for i, fd in enumerate(fields)]
@@ -194,7 +522,7 @@ def sroa(d):
                     out.append(st)
                 out.extend(ins.get((bi, len(b['stmts'])), []))
                 out.extend(ins.get((bi, 'term'), []))
-                b['stmts'] = out
+                b['stmts'] = [st for st in out if not st.get('sroa_dead')]
             done.append((f['id'], name, adt['path']))
     return done
 
@@ -211,6 +539,7 @@ class Program:
                 sa, sr = '::'.join(actual.split('::')[-2:]), '::'.join(role.split('::')[-2:])
                 text = re.sub(r'(?<![\w:])' + re.escape(sa) + r'(?![\w])', sr, text)
             d = json.loads(text)
+        self.inlined = inline_new_helpers(d)
         self.sroa = sroa(d)
         self.raw = d
         self.crate = d['crate']
@@ -889,8 +1218,9 @@ class Fn:
             if t['k'] != 'SwitchInt':
                 continue
             cond = self.expr_of_operand(t['discr'])
-            if cond[0] == 'var' and self.is_dropflag(cond[1]):
-                continue
+            if cond[0] == 'var' and self.is_dropflag(cond[1]) and any(
+                    self.term(x_)['k'] == 'Drop' and not self.blocks[x_]['stmts'] for x_ in [y_[1] for y_ in t['targets']] + [t['otherwise']] if isinstance(x_, int)):
+                continue        # (a drop flag guards a Drop; a bool merged from the arms of a `matches!` does not)
             edges = []
             if t['discr_ty'] == 'bool':
                 for v, tgt in t['targets']:
@@ -1851,7 +2181,15 @@ def split_values(fn, e, limit=24):
                 if 2 <= len(ds) <= 4 and not (1 <= x[1] <= fn.nargs):
                     exprs = [fn.expr_of_def(d) for d in ds]
                     if not any(any(y == x for y in walk(d_)) for d_ in exprs):   # not loop-carried
-                        target = ('var', x, exprs)
+                        # locals defined side by side (the parts of one tuple / struct built in each arm) vary together
+                        blocks_ = [d[0] for d in ds]
+                        mates = []
+                        for y in walk(cur):
+                            if isinstance(y, tuple) and y and y[0] == 'var' and isinstance(y[1], int) and y != x and y not in [m_[0] for m_ in mates]:
+                                dy = fn.defs().get(y[1], [])
+                                if [d[0] for d in dy] == blocks_ and len(set(blocks_)) == len(blocks_):
+                                    mates.append((y, [fn.expr_of_def(d) for d in dy]))
+                        target = ('var', x, exprs, mates)
                         break
             if x[0] == 'call' and re.search(r'Option::<T>::map$', x[1]) and len(x[2]) == 2 and x[2][1][0] == 'closure' and x[2][1][1] in P.fns:
                 cf = P.fns[x[2][1][1]]
@@ -1864,9 +2202,11 @@ def split_values(fn, e, limit=24):
             if cur not in done:
                 done.append(cur)
             continue
-        _, node, alts = target
-        for a in alts:
-            work.append(map_tree(cur, lambda y, node=node, a=a: a if y == node else y))
+        node, alts = target[1], target[2]
+        mates = target[3] if len(target) > 3 else []
+        for i_, a in enumerate(alts):
+            sub = [(node, a)] + [(y_, ys_[i_]) for y_, ys_ in mates]
+            work.append(map_tree(cur, lambda y, sub=sub: next((v_ for k_, v_ in sub if y == k_), y)))
         if len(work) + len(done) > limit:
             return done + work
     return done + work
